@@ -467,7 +467,7 @@ func runC16(c *Ctx) {
 				n++
 				key := ff.Name + "|ReadAt"
 				if ff != f {
-					c.Fail("C16.1", key, rd.Pos(), "the data file is read outside fileStore.fetch: a second in-memory copy of a page can exist")
+					c.FailConfined("C16.1", key, rd.Pos(), "the data file is read outside fileStore.fetch: a second in-memory copy of a page can exist")
 					continue
 				}
 				rl, _ := g.Locate(rd)
@@ -577,8 +577,11 @@ func runC16(c *Ctx) {
 				} else {
 					c.Fail("C16.5", key, sel.Pos(), "the flush uses the cache representation other than by iterating it")
 				}
+			} else if isRangeOperand(ff, sel) || isLenOperand(ff, sel) {
+				// counting or walking the entries neither looks a page up by key nor registers one
+				c.OK("C16.5", key, sel.Pos(), 1, "size or iteration only (no lookup by key, no registration)")
 			} else {
-				c.Fail("C16.5", key, sel.Pos(), "%s reads or writes %s directly, bypassing LRUCache.get/set: recency is not refreshed (a page in use can be evicted) or a page is registered without the eviction rules", ff.Name, fn)
+				c.FailConfined("C16.5", key, sel.Pos(), "%s reads or writes %s directly, bypassing LRUCache.get/set: recency is not refreshed (a page in use can be evicted) or a page is registered without the eviction rules", ff.Name, fn)
 			}
 			return true
 		})
